@@ -20,7 +20,7 @@ RULE = ("cases drawn by seeded sampling over operator kind {dense, mv, mv_rmv, a
         "solver evaluated >= 2 operator products (counted by the spy operator) or used the dense path with n >= 2")
 MIN_NONTRIVIAL = {"quick": 600, "thorough": 8000}
 ASSUMPTIONS = ["cond(A - e_c M) <= 40 for every column and batch element (generator re-draws E otherwise)",
-               "float32 cases request rtol=1e-4/atol=1e-5 (attainable in working precision)", "broyden1 is not given 1e-11-scaled right-hand sides (float32 underflow in the quasi-Newton update)",
+               "float32 cases request rtol=1e-4/atol=1e-5 (attainable in working precision)", "broyden1 is not given 1e-11-scaled right-hand sides (float32 underflow in the quasi-Newton update) nor the 1e3-scaled eigenvector column (its absolute f_tol is then 1e-12 relative, where the rank-one updates stall at ~1e-10)",
                "must-be-silent classes: direct methods always; cg on Hermitian-flagged SPD systems with real shifts keeping them SPD, "
                "or through the normal equations when cond<=6; bicgstab on SPD and on non-Hermitian systems with cond<=12 and n>=2; "
                "broyden1 when the total number of unknowns <= 40; gmres never (only 'silent => converged')"]
@@ -47,13 +47,13 @@ def cases(seed, tier):
         d["n"] = rng.choice(sizes)
         d["ncols"] = rng.choice([1, 2, 3])
         d["tol"] = rng.choice(["default", "tight"])
-        d["special"] = rng.choice([None] * 12 + ["zeroB", "tinyB", "zerocol"])
+        d["special"] = rng.choice([None] * 12 + ["zeroB", "tinyB", "zerocol", "bigeigcol", "bigeigcol"])
         d["kappa"] = rng.choice([3.0, 10.0, 30.0])
         if d["n"] >= 33:
             d["batch"] = rng.choice([0, 1, 2, 3])
         if d["method"] == "broyden1" and d["n"] > 12:
             d["n"] = rng.choice([2, 5, 6, 8])
-        if d["method"] == "broyden1" and d["special"] == "tinyB":
+        if d["method"] == "broyden1" and d["special"] in ("tinyB", "bigeigcol"):
             d["special"] = None      # 1e-11-scaled data underflows in the float32 quasi-Newton update: outside the stated bounds
         out.append(d)
     # directed shapes: batch size equal to the matrix size and ncols == n (dense solve must not read B as a batch of vectors)
@@ -66,6 +66,20 @@ def cases(seed, tier):
                                 "emode": emode, "batch": 0, "BA": [n], "BB": [], "dtype": "float64", "spectrum": "spd", "n": n,
                                 "ncols": n, "tol": "default", "special": None, "kappa": 3.0})
                     k += 1
+    # directed: columns of very different norm, the large one converging first (per-column stopping tolerances)
+    k = 0
+    for n in (6, 9, 14):
+        for method in ("cg", "bicgstab", "gmres", None, "exactsolve"):
+            for emode in ("none", "E", "EM"):
+                for kind in ("mv_rmv", "herm_mv", "dense", "add"):
+                    for spectrum in ("spd", "nonherm_pd"):
+                        if (k % 3 != 0) and tier == "quick":
+                            k += 1
+                            continue
+                        out.append({"group": "directed_colscale", "seed": sub_seed(seed, "c01cs", k), "method": method, "opkind": kind,
+                                    "emode": emode, "batch": 0, "dtype": "float64" if k % 4 else "complex128", "spectrum": spectrum, "n": n,
+                                    "ncols": 2 + k % 2, "tol": "default" if k % 2 else "tight", "special": "bigeigcol", "kappa": 3.0})
+                        k += 1
     # directed: complex shifts (the shifted system is not Hermitian even if A and M are) for every method and operator class
     k = 0
     for n in (3, 6, 9):
@@ -190,12 +204,27 @@ def run_case(desc):
         kap = float((sv[..., 0] / sv[..., -1]).max())
     smin = float(sv[..., -1].min())
     B = torch.randn(*BB, n, ncols, dtype=dt, generator=tgen)
+    f32_in = dt == torch.float32
     if desc["special"] == "zeroB":
         B = torch.zeros_like(B)
     elif desc["special"] == "tinyB":
         B = B * 1e-11
     elif desc["special"] == "zerocol":
         B[..., 0] = 0
+    elif desc["special"] == "bigeigcol":
+        # column 0 is a large multiple of an eigenvector of its own shifted matrix (a Krylov method is done with it after one step),
+        # the other columns are small and generic: every column still has to meet ITS OWN tolerance
+        S0 = S.reshape(-1, ncols if E is not None else 1, n, n)[0, 0]
+        if float((S0 - S0.transpose(-2, -1).conj()).abs().max()) <= 1e-12 * float(S0.abs().max()):
+            v = torch.linalg.eigh(S0)[1][:, rng.randrange(n)]
+        else:
+            ev, vec = torch.linalg.eig(S0)
+            v = vec[:, 0]
+            v = v if dt.is_complex else (v.real if float(v.imag.abs().max()) < 1e-12 else None)
+        if v is not None and len(full_b) == 0:
+            B = B * (1e-3 if not f32_in else 1e-2)
+            B[..., 0] = (1e3 * v / torch.linalg.vector_norm(v)).to(dt)
+            obs.count("bigeigcol_inputs")
     counter = {}
     try:
         Aop = build_operator(kind, A, rng, tgen, counter)
